@@ -60,15 +60,20 @@ def strategy(draw):
         pool = canon + noncanon
     tgt_chroms = draw(st.lists(st.sampled_from(pool), min_size=1, max_size=min(ntgt, len(pool)), unique=True))
     tgt_chroms.sort(key=lambda c: _order(style, c))
+    use_access = draw(st.integers(0, 4)) > 0
     lengths = {}
     baits = []
     gid = 0
     for c in tgt_chroms:
-        L = draw(st.sampled_from([20000, 60000, 160000, 200000, 400000])) + draw(st.integers(0, 5000))
+        L = draw(st.sampled_from([20000, 60000, 160000, 200000, 400000] if use_access else [200000, 300000, 400000])) + draw(st.integers(0, 5000))
         lengths[c] = L
         unit = draw(st.sampled_from([1, 10, 100, 400]))
         n = draw(st.integers(1, 9))
-        pos = draw(st.one_of(st.integers(0, 1200), st.integers(0, L // 2), st.integers(140000, 170000))) % max(1, L - 2000)
+        if use_access:
+            pos = draw(st.one_of(st.integers(0, 1200), st.integers(0, L // 2), st.integers(140000, 170000))) % max(1, L - 2000)
+        else:
+            # without an access table the space starts at the guessed telomere end (150 000): put the baits beyond it
+            pos = draw(st.one_of(st.integers(149000, 152000), st.integers(150600, 190000)))
         rows = []
         s = pos
         e = s + draw(st.integers(1, 30)) * unit
@@ -108,7 +113,7 @@ def strategy(draw):
             baits.append([c, s, e, draw(st.sampled_from(LABELS + ["G%d" % (gid // 2)]))])
             gid += 1
     access = None
-    if draw(st.integers(0, 4)) > 0:
+    if use_access:
         extra_c = draw(st.lists(st.sampled_from([c for c in canon if c not in tgt_chroms] or canon[:1]), max_size=2, unique=True))
         extra_n = draw(st.lists(st.sampled_from([c for c in noncanon if c not in tgt_chroms] or noncanon[:1]), max_size=2, unique=True))
         acc_chroms = sorted(set(tgt_chroms) | set(extra_c) | set(extra_n), key=lambda c: _order(style, c))
@@ -125,6 +130,11 @@ def strategy(draw):
                     break
                 ln = draw(st.one_of(st.integers(1, 1200), st.integers(1000, 60000), st.just(L)))
                 s, e = pos, min(L, pos + ln)
+                here = [b for b in baits if b[0] == c and b[1] > s + 1200]
+                if here and draw(st.integers(0, 2)) == 0:
+                    # right edge of the region next to / inside a (widened) bait
+                    b = here[draw(st.integers(0, len(here) - 1))]
+                    e = min(L, b[1] + draw(st.sampled_from([-600, -500, -499, 0, 100])))
                 if e > s:
                     access.append([c, s, e])
                 pos = e + draw(st.sampled_from([0, 0, 1, 700, 1000, 1001, 5000])) - draw(st.sampled_from([0, 0, 0, 300]))
